@@ -161,6 +161,26 @@ def allOps : List Op :=
   [HMsg.ping, .conf, .open_, .delete, .reset, .symlink].flatMap (fun m => [Op.simple m false, Op.simple m true]) ++
   [true, false].flatMap (fun sa => [Outcome.rejectBeforeFork, .failBeforeSync, .callbackFails, .failAfterAck, .runs].map (fun o => Op.execve sa o))
 
+/-! ### the controlling process dies (C16) -/
+
+/-- steps after the host process has been killed in state `s`: the host never moves again; the
+container consumes what was already in flight; a receive on the empty, closed socket is EOF
+(`done` is closed: every select of the container has that alternative) and init exits. -/
+def crashSteps (g : Cfg) (s : St) : List St :=
+  if s.c = .dead then [] else
+  let s' := { s with h := .returned false }
+  let cs := (steps g s').filter (fun t => t.c ≠ s'.c ∨ t.h2c ≠ s'.h2c ∨ t.c2h ≠ s'.c2h ∨ t.exited ≠ s'.exited)
+  if cs.isEmpty then [{ s' with c := .dead }] else cs
+
+/-- longest crash run from `s` reaches `dead` within the fuel? (all maximal runs) -/
+def crashAllDie (g : Cfg) : Nat → St → Bool
+  | 0, s => s.c == .dead
+  | fuel + 1, s =>
+    if s.c == .dead then true else
+    match crashSteps g s with
+    | [] => false
+    | nxt => nxt.all (crashAllDie g fuel)
+
 /-! ### observable events and trace inclusion -/
 
 inductive Ev
